@@ -2,7 +2,7 @@ PROP = dict(
     gens=[dict(tool="gensites", out="GenSites.v", args=["{repo}"]),
           # the size-class function the model uses is the one in the source (same obligation as C20)
           dict(tool="genintfun", out="GenIntFunPool.v", args=["{repo}/pkg/pool/byteslice/byteslice.go:index:bs_index"])],
-    drivers=[dict(cmd="drv-pool", family="pool", env={"GNET_LOGGING_LEVEL": "5"},
+    drivers=[dict(cmd="drv-pool", family="pool", netns=True, env={"GNET_LOGGING_LEVEL": "5"},
                   timeout={"quick": 600, "thorough": 3000})],
     rule="a case is one history: (a) 20-120 interleaved Get/Put/make/re-slice/write/GC ops by 1-8 goroutines over a private "
          "byteslice.Pool or the built-in one, sizes 0, negatives, 1..2^16 (thorough 2^22) incl. every 2^k and 2^k+-1, a few of "
